@@ -55,7 +55,7 @@ def judge(case):
             base[q.name] = a = lib(q, b0, env)
             nat = sc0.nat(q, a)
             # index symmetries of the result itself
-            if q.name in ("overlap_integral", "kinetic_energy_integral", "moment_integral", "point_charge_integral",
+            if q.name in ("overlap_integral", "overlap_integral[tol_screen]", "kinetic_energy_integral", "moment_integral", "point_charge_integral",
                           "nuclear_electron_attraction_integral"):
                 d, at = quant.relation_dev(np.swapaxes(a, 0, 1), a, [], (), nat=nat)
                 if not d <= q.tol:
